@@ -27,11 +27,11 @@ Specification oracle (shares no code with tsdate; scipy is not used either):
   cdf: mpmath at 30 digits (lognormal: ncdf((log x - alpha)/sqrt(beta)); gamma: regularised lower incomplete gamma).
 
 Input space
-  inputs: single-tree shapes with <= 4 leaves incl. polytomies (a seeded subset in quick, all 41 in thorough);
+  inputs: single-tree shapes with <= 4 leaves incl. polytomies (a seeded subset in quick, all 31 in thorough);
      msprime simulations with 3..8 samples and several trees, with random polytomy collapses and missing-sample
      intervals (same construction as bounded_C15), half of them with all node ids randomly permuted so that
      samples are not the lowest ids; all samples at time 0, no unary nodes, one root per tree.
-     quick: 10 shapes + 35 simulations, thorough: 41 shapes + 250 simulations.
+     quick: 10 shapes + 35 simulations, thorough: 31 shapes + 250 simulations.
   configurations, 4 (quick) / 6 (thorough) drawn per input from the product of
      timepoints in {2, 3, 5, 10, 20, 40} or an explicit array [0, 2N_ref * 10^U(-3, 1) ...] of 2..30 points given
      sorted or shuffled; prior_distribution in {lognorm, gamma}; population_size a python float, a python int, or a
@@ -362,7 +362,7 @@ def run(req, rep):
     rep.space = ("small simplified inputs (tree shapes <= 4 leaves, msprime simulations 3..8 samples with polytomies / "
                  "missing samples) x {integer timepoints 2..40, explicit grids of 2..30 points} x {lognorm, gamma} x "
                  "{float, int, 2..4-epoch PopulationSizeHistory}")
-    rep.bound = (f"{41 if thorough else 10} shapes + {250 if thorough else 35} simulations, {per_input} configurations "
+    rep.bound = (f"{31 if thorough else 10} shapes + {250 if thorough else 35} simulations, {per_input} configurations "
                  "each")
     rep.exhaustive = False
     stats = {"configs": 0, "grid_bitexact": 0, "grid_explicit": 0, "grid_maxrel": 0.0, "row_maxabs": 0.0,
